@@ -80,8 +80,49 @@ fn rel<D: P>(h: &D, d: &D) -> Vec<V> {
     ]
 }
 
+/// The rule tournament on `0..n` (`u < v`: `u -> v` when `u + v` is even, else `v -> u`); with
+/// `missing = (a, b)` that pair is not joined and another pair is doubled, so the size is still
+/// `n(n-1)/2` and every size pre-check passes. Compact form of a dense `pred_unary` case.
+pub fn tour_arcs(n: usize, missing: Option<(usize, usize)>) -> Vec<(usize, usize)> {
+    let mut arcs = Vec::with_capacity(n * n / 2 + 1);
+    let dbl = missing.map(|(a, b)| if a.min(b) >= 2 { (0, 1) } else { (n - 2, n - 1) });
+    for u in 0..n {
+        for v in (u + 1)..n {
+            if missing == Some((u, v)) {
+                continue;
+            }
+            if dbl == Some((u, v)) {
+                arcs.push((u, v));
+                arcs.push((v, u));
+            } else if (u + v) % 2 == 0 {
+                arcs.push((u, v));
+            } else {
+                arcs.push((v, u));
+            }
+        }
+    }
+    arcs
+}
+
 pub fn eval(op: &str, args: &[V]) -> Option<Vec<V>> {
     match op {
+        "pred_tour" => {
+            // pred_tour <repr> <n> [] | [a b]   (a < b < n, n >= 4 when a pair is given)
+            let [repr, n, pr] = args else { return None };
+            let (repr, n, pr) = (repr.as_atom()?, n.as_usize()?, pr.as_usizes()?);
+            let missing = match pr.as_slice() {
+                [] => None,
+                [a, b] if a < b && *b < n && n >= 4 => Some((*a, *b)),
+                _ => return None,
+            };
+            if n == 0 || n > 2000 || !graphs::ALL_REPRS.contains(&repr) {
+                return None;
+            }
+            let arcs = tour_arcs(n, missing);
+            let k = arcs.len();
+            let desc = Desc { repr: repr.to_string(), verts: (0..n).collect(), arcs, weights: vec![1; k] };
+            Some(crate::with_digraph!(&desc, d => unary(&d)))
+        }
         "pred_unary" => {
             let [d] = args else { return None };
             let desc = Desc::parse(d)?;
@@ -125,6 +166,12 @@ fn order_mix(rng: &mut Rng, max: usize) -> usize {
 
 /// A pair of distinct vertices; biased towards the first / last rows (chunk boundaries).
 fn pick_pair(rng: &mut Rng, n: usize) -> (usize, usize) {
+    // the last two / three vertices: the rows a wrong chunking is most likely to drop
+    match rng.below(8) {
+        0 | 1 if n >= 2 => return (n - 2, n - 1),
+        2 if n >= 3 => return (n - 3, n - 1),
+        _ => {}
+    }
     let u = match rng.below(4) {
         0 => n - 1,
         1 => 0,
@@ -408,7 +455,115 @@ fn gen_rel(rng: &mut Rng, repr: &str, emit: &mut dyn FnMut(String)) {
     }
 }
 
+// ---------------------------------------------------------------------------------------
+// out-of-distribution cases (round 2): orders far above the thread count for the threaded
+// AdjacencyList::is_semicomplete, AdjacencyMap ids next to usize::MAX
+// ---------------------------------------------------------------------------------------
+
+/// A tournament on `0..n` in which the pair `{a, b}` is NOT joined and another pair is doubled
+/// (so `size == n(n-1)/2` still passes every size pre-check): semicomplete / tournament must be false.
+fn tournament_minus_pair(rng: &mut Rng, n: usize, a: usize, b: usize) -> Vec<(usize, usize)> {
+    let mut s = tournament(rng, n);
+    let _ = s.remove(&(a, b));
+    let _ = s.remove(&(b, a));
+    // double a pair far away from {a, b}
+    let (c, d) = if a.min(b) >= 2 { (0, 1) } else { (n - 2, n - 1) };
+    let _ = s.insert((c, d));
+    let _ = s.insert((d, c));
+    let mut arcs: Vec<_> = s.into_iter().collect();
+    rng.shuffle(&mut arcs);
+    arcs
+}
+
+fn large_al_lines(rng: &mut Rng, orders: &[usize], all_pairs: bool, emit: &mut dyn FnMut(String)) {
+    for &n in orders {
+        // the only non-adjacent pair lies in the trailing rows (then: in the leading rows, at a chunk boundary)
+        let mut pairs = vec![(n - 2, n - 1)];
+        if all_pairs {
+            pairs.push((n - 3, n - 1));
+            pairs.push((n - 3, n - 2));
+            pairs.push((0, 1));
+            let c = n.div_ceil(16);
+            pairs.push((c - 1, c));
+            pairs.push((rng.below(n / 2), n / 2 + rng.below(n / 2)));
+        }
+        for (a, b) in pairs {
+            emit(format!("pred_tour al {n} [{a} {b}]"));
+        }
+    }
+}
+
+/// Map digraphs on ids incl. `usize::MAX`, `MAX-1`, `MAX/2` whose size passes the pre-checks.
+fn extreme_id_maps(rng: &mut Rng, rounds: usize, emit: &mut dyn FnMut(String)) {
+    let pools: [Vec<usize>; 3] = [
+        vec![0, 7, usize::MAX / 2, usize::MAX - 1, usize::MAX],
+        vec![usize::MAX - 2, usize::MAX - 1, usize::MAX],
+        vec![5, usize::MAX],
+    ];
+    for r in 0..rounds {
+        let ids = &pools[r % pools.len()];
+        let n = ids.len();
+        let relabel = |arcs: Vec<(usize, usize)>| -> Vec<(usize, usize)> {
+            arcs.into_iter().map(|(u, v)| (ids[u], ids[v])).collect()
+        };
+        let mut shapes: Vec<Vec<(usize, usize)>> = vec![
+            tournament(rng, n).into_iter().collect(),
+            complete(n).into_iter().collect(),
+            gen_pred_arcs(rng, n).1,
+        ];
+        if n >= 3 {
+            // the only non-adjacent pair involves the largest id
+            shapes.push(tournament_minus_pair(rng, n, n - 2, n - 1));
+            shapes.push(tournament_minus_pair(rng, n, 0, n - 1));
+        }
+        for arcs in shapes {
+            let d = mk("am", ids.clone(), relabel(arcs), rng);
+            emit(format!("pred_unary {}", d.to_v()));
+        }
+        // relational: H = D minus its largest vertex / D itself
+        let d = mk("am", ids.clone(), relabel(tournament(rng, n).into_iter().collect()), rng);
+        let mut hv = ids.clone();
+        let top = hv.pop().unwrap();
+        let ha: Vec<(usize, usize)> = d.arcs.iter().copied().filter(|&(u, v)| u != top && v != top).collect();
+        if !hv.is_empty() {
+            let h = mk("am", hv, ha, rng);
+            emit(format!("pred_rel {} {}", h.to_v(), d.to_v()));
+            emit(format!("pred_rel {} {}", d.to_v(), h.to_v()));
+        }
+        emit(format!("pred_rel {} {}", d.to_v(), d.to_v()));
+    }
+}
+
+/// The stress stream (generated only when a tie is broken and a failing input is searched for).
+fn gen_stress(rng: &mut Rng, emit: &mut dyn FnMut(String)) {
+    extreme_id_maps(rng, 6, emit);
+    // orders 192..: `order mod t` takes many values for t = min(cores, order / 64), order / t, ceil(order / t)
+    large_al_lines(rng, &[200, 193, 257, 263], true, emit);
+    large_al_lines(rng, &[300, 339, 518], false, emit);
+    // positive cases of the same size (a true answer must stay true), other representations
+    for &n in &[200usize, 263] {
+        emit(format!("pred_tour al {n} []"));
+    }
+    for repr in ["am", "mx"] {
+        emit(format!("pred_tour {repr} 200 [198 199]"));
+    }
+    // one explicit random dense case (not rule-generated)
+    let arcs = tournament_minus_pair(rng, 200, 198, 199);
+    emit(format!("pred_unary {}", mk("al", (0..200).collect(), arcs, rng).to_v()));
+    large_al_lines(rng, &[770], false, emit);
+}
+
+/// Cheap out-of-distribution cases that run in EVERY tier (after the regular stream).
+fn gen_ood(rng: &mut Rng, emit: &mut dyn FnMut(String)) {
+    extreme_id_maps(rng, 2, emit);
+    large_al_lines(rng, &[200, 263], false, emit);
+}
+
 pub fn gen(rng: &mut Rng, thorough: bool, emit: &mut dyn FnMut(String)) {
+    if crate::stress() {
+        gen_stress(rng, emit);
+        return;
+    }
     if thorough {
         // exhaustive small scope: all digraphs on <= 3 vertices (unary), all pairs on <= 2 x <= 3 (relational, al + am)
         let mut small: Vec<(usize, Vec<(usize, usize)>)> = vec![];
@@ -469,4 +624,5 @@ pub fn gen(rng: &mut Rng, thorough: bool, emit: &mut dyn FnMut(String)) {
     for (_, s) in lines {
         emit(s);
     }
+    gen_ood(rng, emit);
 }
